@@ -74,12 +74,20 @@ type program struct {
 	Stack string     `json:"stack"`
 	Views []viewSpec `json:"views"`
 	Keys  []string   `json:"keys"`
-	Gor   [][]op     `json:"goroutines"`
+	// Filler = number of unrelated entries ("z....", never addressed by the program, skipped by every consumer)
+	// stored before the goroutines start. mapdb scans the whole map under its lock for every prefix operation, so
+	// fillers stretch those critical sections from well under a microsecond to tens of microseconds and make other
+	// goroutines pile up on the lock - which is what makes non-atomic behaviour observable.
+	Filler int    `json:"filler"`
+	Gor    [][]op `json:"goroutines"`
 }
+
+func isFiller(fullKey []byte) bool { return len(fullKey) > 0 && fullKey[0] == 'z' }
 
 func (p program) key() string {
 	var b strings.Builder
 	b.WriteString(p.Stack)
+	fmt.Fprintf(&b, "|f%d", p.Filler)
 	for _, v := range p.Views {
 		fmt.Fprintf(&b, "|%q<%d", v.Realm, v.Parent)
 	}
@@ -100,7 +108,7 @@ func (p program) render() map[string]any {
 			gs[i] = append(gs[i], o.String())
 		}
 	}
-	return map[string]any{"stack": p.Stack, "views": p.Views, "keys": p.Keys, "goroutines": gs}
+	return map[string]any{"stack": p.Stack, "views": p.Views, "keys": p.Keys, "filler": p.Filler, "goroutines": gs}
 }
 
 // weight = number of porcupine operations the op becomes
@@ -136,6 +144,7 @@ func genProgram(t *rapid.T, minG, maxG, minPer, maxPer, maxOps int, pointOnly bo
 	}
 	nk := rapid.IntRange(2, 6).Draw(t, "nkeys")
 	p.Keys = rapid.SliceOfNDistinct(rapid.SampledFrom(keyPool), nk, nk, rapid.ID[string]).Draw(t, "keys")
+	p.Filler = rapid.SampledFrom([]int{0, 200, 2000, 2000}).Draw(t, "filler")
 	g := rapid.IntRange(minG, maxG).Draw(t, "goroutines")
 	per := maxOps / g
 	if per > maxPer {
@@ -243,6 +252,12 @@ func execute(p program) runResult {
 		}
 		if err != nil {
 			return runResult{OpError: fmt.Sprintf("creating view %d: %v", i, err)}
+		}
+	}
+
+	for i := 0; i < p.Filler; i++ {
+		if err := root.Set([]byte(fmt.Sprintf("z%04x", i)), []byte{0xee}); err != nil {
+			return runResult{OpError: fmt.Sprintf("storing filler %d: %v", i, err)}
 		}
 	}
 
@@ -354,6 +369,9 @@ func execute(p program) runResult {
 			if o.Kind == "iterate" {
 				h.OutVals = []int{}
 				err = st.Iterate([]byte(o.Arg), func(k kvstore.Key, v kvstore.Value) bool {
+					if isFiller(k) {
+						return true
+					}
 					calls++
 					h.OutKeys = append(h.OutKeys, hex.EncodeToString(k))
 					h.OutVals = append(h.OutVals, valID(v))
@@ -361,6 +379,9 @@ func execute(p program) runResult {
 				}, dirs...)
 			} else {
 				err = st.IterateKeys([]byte(o.Arg), func(k kvstore.Key) bool {
+					if isFiller(k) {
+						return true
+					}
 					calls++
 					h.OutKeys = append(h.OutKeys, hex.EncodeToString(k))
 					return o.Stop == 0 || calls < o.Stop
@@ -435,11 +456,8 @@ func execute(p program) runResult {
 				defer wg.Done()
 				// spin barrier: all goroutines start their first operation together
 				arrived.Add(1)
-				for spins := 0; arrived.Load() < n; spins++ {
-					if spins > 20000 {
-						runtime.Gosched() // more goroutines than free processors: do not burn a scheduler quantum
-						spins = 0
-					}
+				for arrived.Load() < n {
+					runtime.Gosched()
 				}
 				bid := batchBase[g]
 				for _, pl := range plans[g] {
@@ -475,6 +493,9 @@ func execute(p program) runResult {
 	final := hop{G: -1, Kind: "iterate", OutKeys: []string{}, OutVals: []int{}}
 	final.Call = clock.Tick()
 	err := root.Iterate(kvstore.EmptyPrefix, func(k kvstore.Key, v kvstore.Value) bool {
+		if isFiller(k) {
+			return true
+		}
 		final.OutKeys = append(final.OutKeys, hex.EncodeToString(k))
 		final.OutVals = append(final.OutVals, valID(v))
 		return true
